@@ -311,8 +311,9 @@ def run_ensemble_maps(rng, obs):
     def mkterm():
         from mystic.termination import CandidateRelativeTolerance as CRT, VTR
         return CRT(ctol, ctol) if term_kind == 'crt' else (VTR(vtol) if term_kind == 'vtr' else NCOG(1e-4, 2))
+    monk = rng.choice([{}, {}, {'k': -1}, {'k': 2.5}])          # cost multiplier of the ensemble's monitors (k = -1: the documented way to log a maximisation)
     dist = rng.choice([None, None, 'normal', 'uniform'])      # members' starting points randomised by a user-supplied Distribution (built after seeding)
-    obs.desc.update(monitors=mons, restart=restart, nested_instance=instance, box=box, dist=dist, termination=term_kind)
+    obs.desc.update(monitors=mons, restart=restart, nested_instance=instance, box=box, dist=dist, termination=term_kind, monitor_k=monk.get('k'))
     if dist: obs.event('sampled_from_a_distribution')
     def cost(x):
         return raw([float(v) for v in x])
@@ -343,8 +344,8 @@ def run_ensemble_maps(rng, obs):
                 s.SetDistribution(Distribution('numpy.random.normal', 0.5 * (min(box['lo']) + max(box['hi'])), w) if dist == 'normal' else
                                   Distribution('numpy.random.uniform', min(box['lo']) - 0.5 * w, max(box['hi']) + 0.5 * w))
         if mapname != 'default': s.SetMapper(getattr(zoo, mapname))
-        if mons in ('both', 'stepmon'): s.SetGenerationMonitor(Monitor())
-        if mons in ('both', 'evalmon'): s.SetEvaluationMonitor(Monitor())
+        if mons in ('both', 'stepmon'): s.SetGenerationMonitor(Monitor(**monk))
+        if mons in ('both', 'evalmon'): s.SetEvaluationMonitor(Monitor(**monk))
         s.SetTermination(mkterm())
         if step: s.Solve(cost, disp=0, step=True)
         else: s.Solve(cost, disp=0)
